@@ -63,7 +63,14 @@ fn complex_solve(n: usize) {
                 prove(&format!("complex solve: residual row {} (imaginary part)", i), eq(acc.imag, r[i].imag));
             } }
         }
-        Err(Stop::Panic { msg, .. }) => { let lower = msg.to_lowercase(); prove(&format!("complex solve: the only panic is the zero-pivot refusal (got '{}')", msg), if lower.contains("zero") || lower.contains("pivot") { B::True } else { B::False }); }
+        Err(Stop::Panic { msg, .. }) => {
+            let lower = msg.to_lowercase();
+            prove(&format!("complex solve: the only panic is the zero-pivot refusal (got '{}')", msg), if lower.contains("zero") || lower.contains("pivot") { B::True } else { B::False });
+            // a refusal is justified only when elimination really meets a zero pivot: some leading principal minor vanishes (both parts)
+            let dense: Vec<Vec<Cmplx>> = (0..n).map(|i| (0..n).map(|j| entry(i, j)).collect()).collect();
+            let minors: Vec<Cmplx> = (1..=n).map(|k| { let sub: Vec<Vec<Cmplx>> = (0..k).map(|i| dense[i][..k].to_vec()).collect(); super::c01::cplx::cdet(&sub) }).collect();
+            prove("complex solve: refuses only when a leading principal minor is zero", B::or(minors.iter().map(|m| B::and(vec![eq(m.real, z()), eq(m.imag, z())])).collect()));
+        }
         Err(s) => must_not_stop("complex solve: must return or refuse, never divide by zero", &s),
     }
 }
